@@ -257,6 +257,7 @@ func (st *State) Unmarshal(r io.Reader) error {
 		}
 	}
 
+	verifHook("Unmarshal", st)
 	return nil
 }
 
